@@ -296,12 +296,17 @@ func (o *offsetDB) save(jobs map[pipeline.SourceID]*Job, mu *sync.RWMutex) {
 	err = verifhook.Err("offsets.write", err)
 	if err != nil {
 		logger.Errorf("can't write offsets file %s, %s", o.tmpOffsetsFile, err.Error())
+		// never replace a good offsets file with a partially written one
+		_ = os.Remove(string(tmpWithRandom))
+		return
 	}
 
 	err = file.Sync()
 	err = verifhook.Err("offsets.sync", err)
 	if err != nil {
 		logger.Errorf("can't sync offsets file %s, %s", o.tmpOffsetsFile, err.Error())
+		_ = os.Remove(string(tmpWithRandom))
+		return
 	}
 
 	verifhook.Point("offsets.beforeRename")
